@@ -93,7 +93,7 @@ theorem refSet_other (c : Cfg) (r : Ref) (v : Val) (s : St) (y : VarId) (h : y â
     (refSet c r v s).st.store y = s.store y := by
   cases r with
   | var x => simpa [refSet] using varSet_other c x y v s h
-  | elem x base i =>
+  | elem x i =>
     simp only [refSet]
     split
     Â· rfl
